@@ -69,9 +69,17 @@ func runC09(c *fw.Ctx) {
 		case x < 36 || len(keys) == 0:
 			k := g.Key(keys)
 			v, w := g.Value()
-			c.Tracef("upd %s=%s/%d", wl.KeyStr(k), v, w)
-			if err := t.Update(k, v, w); err != nil {
-				fail("Update failed: %v", err)
+			var err error
+			if r.Intn(4) == 0 {
+				c.Tracef("put %s=%s/%d", wl.KeyStr(k), v, w)
+				err = t.Put(k, v, w)
+				c.Count("puts", 1)
+			} else {
+				c.Tracef("upd %s=%s/%d", wl.KeyStr(k), v, w)
+				err = t.Update(k, v, w)
+			}
+			if err != nil {
+				fail("Update/Put failed: %v", err)
 				return
 			}
 			m[string(k)] = wl.Entry{Val: v, W: w}
@@ -99,10 +107,24 @@ func runC09(c *fw.Ctx) {
 			m[string(k)] = wl.Entry{Val: v, W: w}
 		case x < 68:
 			k := []byte(keys[r.Intn(len(keys))])
-			c.Tracef("del %s", wl.KeyStr(k))
-			if err := t.Update(k, nil, 0); err != nil {
-				fail("delete of a live key failed: %v", err)
-				return
+			if r.Intn(4) == 0 {
+				c.Tracef("Delete(%s)", wl.KeyStr(k))
+				freed, err := t.Delete(k)
+				if err != nil {
+					fail("Delete of a live key failed: %v", err)
+					return
+				}
+				if freed != m[string(k)].W {
+					fail("Delete returned weight %d, the key's weight was %d", freed, m[string(k)].W)
+					return
+				}
+				c.Count("deletes_via_Delete", 1)
+			} else {
+				c.Tracef("del %s", wl.KeyStr(k))
+				if err := t.Update(k, nil, 0); err != nil {
+					fail("delete of a live key failed: %v", err)
+					return
+				}
 			}
 			delete(m, string(k))
 			clean = false
@@ -168,8 +190,15 @@ func runC09(c *fw.Ctx) {
 				continue
 			}
 			wr, ww := m.Ref()
-			c.Tracef("reload")
-			t = wl.Reopen(wr, ww, db)
+			if r.Intn(3) == 0 {
+				lvl := r.Intn(5)
+				c.Tracef("reload via CopyRoot(%d)", lvl)
+				t = wmpt.New(t.CopyRoot(lvl), db)
+				c.Count("reloads_via_CopyRoot", 1)
+			} else {
+				c.Tracef("reload")
+				t = wl.Reopen(wr, ww, db)
+			}
 			c.Count("reloads", 1)
 			if f := wl.CheckFull(t, m, true); f != "" {
 				fail("after reload from (root, weight): %s", f)
@@ -200,8 +229,8 @@ func init() {
 	fw.Register(&fw.Prop{
 		ID:    "C09",
 		Level: "exploration",
-		Rule: "seeded histories of 8..30 (quick) / 8..80 (thorough) steps over 32-byte keys that copy a random-length nibble prefix (0..63) of an existing key: update, overwrite (new or unchanged value), delete of live and absent keys, Commit(level 0..5)+batch commit, " +
-			"garbage-collection pass and reload from (root hash, weight) at clean points; every 50th history on real pebble. Weight is a fixed function of the value. After every step Weight() == sum of live weights; after every commit, GC pass and reload: Root() == independent reference root from the sorted live set, " +
+		Rule: "seeded histories of 8..30 (quick) / 8..80 (thorough) steps over 32-byte keys that copy a random-length nibble prefix (0..63) of an existing key: update (Update or Put), overwrite (new or unchanged value), delete of live and absent keys (Update with empty value or Delete, whose returned weight is checked), Commit(level 0..5)+batch commit, " +
+			"garbage-collection pass and reload (from (root hash, weight), or a new trie over CopyRoot(level)) at clean points; every 50th history on real pebble. Weight is a fixed function of the value. After every step Weight() == sum of live weights; after every commit, GC pass and reload: Root() == independent reference root from the sorted live set, " +
 			"for EVERY block 1..W the key named by GetBlockProof is the model owner and the proof verifies to the reference root with the owner's value, block W+1 is refused. non-trivial = history that mutates a key after a commit (its subtree is then a hash reference); distinct by trace hash",
 		Cases: func(tier string) int {
 			if tier == "thorough" {
@@ -210,7 +239,7 @@ func init() {
 			return 16000
 		},
 		Run:    runC09,
-		Floors: map[string]int64{"histories": 15000, "steps": 200000, "commits": 20000, "full_checks": 20000, "gc_passes": 2000, "reloads": 2500, "mutations_after_a_commit": 30000, "delete_absent": 3000, "histories_on_pebble": 100},
+		Floors: map[string]int64{"histories": 15000, "steps": 200000, "commits": 20000, "full_checks": 20000, "gc_passes": 2000, "reloads": 2500, "mutations_after_a_commit": 30000, "delete_absent": 3000, "histories_on_pebble": 100, "puts": 10000, "deletes_via_Delete": 3000, "reloads_via_CopyRoot": 500},
 		Assumptions: []string{
 			"weight is a function of the value (the property's domain)",
 			"garbage collection and reload are only issued when the live trie has no uncommitted mutation (GC on a dirty trie belongs to C11)",
